@@ -62,11 +62,14 @@ fn main() {
         let page = [4096usize, 8192, 16384][(rnd() % 3) as usize];
         let n = 5 + (rnd() % 60) as usize;
         let uniform = rnd() % 3 == 0; // one layout only (what a single CQueue<E> does)
-        let (us, ua) = (sizes[(rnd() % sizes.len() as u64) as usize], aligns[(rnd() % aligns.len() as u64) as usize]);
+        // sizes relative to the page (half a page exactly, just below / above it, a quarter, three eighths): every fourth pick
+        let rel = [page / 2, page / 2 - 8, page / 2 + 8, page / 4, page / 8 * 3];
+        let mut pick = |r: u64, r2: u64| -> usize { if r % 4 == 0 { rel[(r2 % rel.len() as u64) as usize] } else { sizes[(r2 % sizes.len() as u64) as usize] } };
+        let (us, ua) = (pick(rnd(), rnd()), aligns[(rnd() % aligns.len() as u64) as usize]);
         let mut ops = vec![];
         for _ in 0..n {
             if rnd() % 3 != 0 {
-                let (sz, al) = if uniform { (us, ua) } else { (sizes[(rnd() % sizes.len() as u64) as usize], aligns[(rnd() % aligns.len() as u64) as usize]) };
+                let (sz, al) = if uniform { (us, ua) } else { (pick(rnd(), rnd()), aligns[(rnd() % aligns.len() as u64) as usize]) };
                 ops.push((0u8, sz, al, 0usize));
             } else { ops.push((1u8, 0, 0, rnd() as usize)); }
         }
